@@ -1561,7 +1561,7 @@ def itzhack(dcm: np.ndarray, version: int = 3) -> np.ndarray:
             [ d21+d12, d22-d11,      d32,     d31],
             [ d31,         d32, -d11-d22, d12-d21],
             [-d32,         d31,  d12-d21, d11+d22]]) / 2.0  # (eq. 1)
-        eigval, eigvec = np.linalg.eig(K2)
+        eigval, eigvec = np.linalg.eigh(K2)     # K2 is symmetric: real eigenpairs
         q = eigvec[:, np.where(np.isclose(eigval, 1.0))[0]].flatten().real
     else:
         K3 = np.array([
@@ -1569,7 +1569,7 @@ def itzhack(dcm: np.ndarray, version: int = 3) -> np.ndarray:
             [d21+d12,     d22-d11-d33,     d32+d23,     d31-d13],
             [d31+d13,         d32+d23, d33-d11-d22,     d12-d21],
             [d23-d32,         d31-d13,     d12-d21, d11+d22+d33]]) / 3.0    # (eq. 2)
-        eigval, eigvec = np.linalg.eig(K3)
+        eigval, eigvec = np.linalg.eigh(K3)     # K3 is symmetric: real eigenpairs
         if version == 2:
             q = eigvec[:, np.where(np.isclose(eigval, 1.0))[0]].flatten().real
         else:
